@@ -9,10 +9,13 @@ for d in sorted([x for x in glob.glob('/tmp/seeded_out/*') if re.search(r'/(R\d)
         log = open(v).read()
         if 'RESULT confirmed' not in log:
             print('not confirmed', pid, k); continue
-        # second-round seeds (directory R2Cxx) are numbered on from the first round
-        if pid[0] == 'R':  # R2Cxx / R3Cxx: later rounds are numbered on from the first round
-            key = f'{pid[2:]}-{int(k)+2}'
+        # later rounds (directories R2Cxx, R3Cxx, R4Cxx) are numbered on from the earlier rounds
+        # that exist for the same property: two seeds per round
+        if pid[0] == 'R':
             prop = pid[2:]
+            rnd = int(pid[1])
+            earlier = 1 + sum(1 for r in range(2, rnd) if os.path.isdir(f'/tmp/seeded_out/R{r}{prop}'))
+            key = f'{prop}-{int(k) + 2 * earlier}'
         else:
             key = f'{pid}-{k}'
             prop = pid
